@@ -203,8 +203,9 @@ class Fates:
         if forced is not None:
             kind = forced
         else:
-            for lo, hi in p.get("blackouts", []):
-                if lo <= t < hi:
+            for bo in p.get("blackouts", []):
+                lo, hi = bo[0], bo[1]
+                if lo <= t < hi and (len(bo) < 3 or bo[2] == direction):
                     self.counts["blackout"] += 1
                     return []
             r = rng.random()
